@@ -83,10 +83,36 @@ fn check_union_definition(ctx: &mut Ctx, members: &[Member], settle: &Option<Vec
         }
     }
     ctx.asserted(2 * (z_2200_end() + 1) as u64);
+    if !check_container(ctx, &u, &rateslib::calendars::CalType::UnionCal(u.clone()), "UnionCal", &desc) {
+        return;
+    }
+    if let Some(m) = members.first() {
+        if !check_container(ctx, &m.cal, &rateslib::calendars::CalType::Cal(m.cal.clone()), "Cal", &m.spec.describe()) {
+            return;
+        }
+    }
     ctx.class(&format!("union:{}members:{}settle", members.len().min(4), settle.as_ref().map_or(0, |v| v.len()).min(3)));
     ctx.class_n("dates-where-members-disagree-or-settlement-blocks", n_nontrivial);
     ctx.distinct(hash_u64s(&[crate::util::hash_str(&desc.to_string())]));
     ctx.sample(what, || desc.clone());
+}
+
+/// the `CalType` container (what a curve stores) must answer every predicate exactly as the calendar it holds
+fn check_container<C: DateRoll>(ctx: &mut Ctx, inner: &C, ct: &rateslib::calendars::CalType, kind: &str, desc: &Value) -> bool {
+    for z in Z_1970..=z_2200_end() {
+        let dt = to_ndt(z);
+        let a = (inner.is_weekday(&dt), inner.is_holiday(&dt), inner.is_settlement(&dt), inner.is_bus_day(&dt));
+        let b = (ct.is_weekday(&dt), ct.is_holiday(&dt), ct.is_settlement(&dt), ct.is_bus_day(&dt));
+        if a != b {
+            let which = if a.0 != b.0 { "is_weekday" } else if a.1 != b.1 { "is_holiday" } else if a.2 != b.2 { "is_settlement" } else { "is_bus_day" };
+            ctx.violation(&format!("C06|container-differs|{}|{}", kind, which), json!({"calendar": desc, "date": fmt_z(z), "held_calendar (weekday, holiday, settlement, bus)": [a.0, a.1, a.2, a.3], "CalType": [b.0, b.1, b.2, b.3]}));
+            return false;
+        }
+    }
+    ctx.eval(4 * (z_2200_end() + 1) as u64);
+    ctx.asserted(4 * (z_2200_end() + 1) as u64);
+    ctx.class(&format!("container:{}", kind));
+    true
 }
 
 fn bits_full<C: DateRoll>(c: &C) -> CalBits {
@@ -189,6 +215,9 @@ impl Prop for C06 {
         for c in ["weekend-holiday-added", "member-listed-twice", "order-changed", "weekday-holiday-added-to-member", "weekday-holiday-added-to-settlement-only", "difference-only-at-1970-01-01", "difference-only-at-2200-12-31", "members-and-settlement-swapped", "non-restrictive-settlement:empty-list", "non-restrictive-settlement:all"] {
             v.push(format!("eq-case:{}", c));
         }
+        for k in ["Cal", "UnionCal", "NamedCal"] {
+            v.push(format!("container:{}", k));
+        }
         v
     }
     fn min_evaluations(&self, tier: Tier) -> u64 {
@@ -289,6 +318,9 @@ impl Prop for C06 {
                                "named": {"bus": named.is_bus_day(&to_ndt(z)), "settle": named.is_settlement(&to_ndt(z))},
                                "explicit": {"bus": explicit.is_bus_day(&to_ndt(z)), "settle": explicit.is_settlement(&to_ndt(z))}}),
                     );
+                    return;
+                }
+                if !check_container(ctx, &named, &rateslib::calendars::CalType::NamedCal(named.clone()), "NamedCal", &json!({"name": rendered})) {
                     return;
                 }
                 // and they compare equal, both ways
